@@ -24,7 +24,8 @@ RULE = ("Hypothesis draws a type program, options and 5-10 data: valid data whos
         "settings.deserialization.coerce=True and with a custom coercer returning wrong-typed objects.  Oracle: strict-accept => "
         "coerce-accept (canon-equal result when no union is involved); strict-reject and coerce-accept => the reference model run "
         "with the documented table only also accepts, with an equal result; coerce=True and the global setting agree; a value returned "
-        "under the wrong-typed coercer never contains the coercer's marker object.  Non-trivial: the datum contains >= 1 primitive whose "
+        "under the wrong-typed coercer never contains the coercer's marker object; the coerced outcome of each datum is the same when the data of "
+        "the case are run in order and, after a cache reset, in reverse order (no dependence on history).  Non-trivial: the datum contains >= 1 primitive whose "
         "JSON class differs from the class the type expects there (strict rejects).  Distinct = hash(type shape, datum shape, verdicts).")
 ASSUMPTIONS = ["the documented table: int()/float() from strings and numbers, str() from numbers, 14 boolean words case-insensitively, int->bool, ''->None",
                "float->int truncation, bool->number and coercion towards Literal/Enum values are UNSPECIFIED (skipped)"]
@@ -213,6 +214,33 @@ def _evaluate(case, ctx, b, prog, opts):
             ctx.nontriv([tdcase.shape(prog["root"], prog), tdcase.dshape(d), s_got, c_got, w_got])
             ctx.sample({"type": b.source.split("ROOT = ")[-1].strip(), "datum": d, "strict": s_got, "coerce": c_got,
                         "coerced_value": repr(c_res)[:120] if c_got == "ok" else None, "wrong_typed_coercer": w_got})
+    _history_independence(case, ctx, b, prog, kw)
+
+
+def _history_independence(case, ctx, b, prog, kw):
+    """The coerced outcome of a datum does not depend on what was deserialized before: the data of the case are run
+    in order without any configuration change in between, then - after a cache reset - in reverse order."""
+    tp = b.root
+    ckw = dict(kw, coerce=True)
+
+    def outcome(d):
+        got, res = run(tp, d, ckw)
+        return (got, M.canon(res) if got == "ok" else (sorted(map(repr, res.errors)) if got == "err" else None))
+
+    data = [item["d"] for item in case["data"]]
+    apischema.cache.reset()
+    forward = [outcome(d) for d in data]
+    apischema.cache.reset()
+    backward = [outcome(d) for d in reversed(data)][::-1]
+    for i, (f_, b_) in enumerate(zip(forward, backward)):
+        if "crash" in (f_[0], b_[0]):
+            continue
+        if f_[0] != b_[0] or (f_[0] == "ok" and not M.canon_eq(f_[1], b_[1])) or (f_[0] == "err" and f_[1] != b_[1]):
+            ctx.violation({"rel": "coercion_depends_on_history", "outcomes": [f_[0], b_[0]]}, {"prog": prog, "opts": case["opts"], "data": case["data"]},
+                          f"datum #{i} {tdcase.compact(data[i], 150)} under coerce=True: {f_} when the data {tdcase.compact(data, 300)} are run in order, "
+                          f"{b_} when they are run in reverse order")
+            return
+    ctx.h("history_independence_checked")
 
 
 def _localize(b, cmodel, prog, d, kw, opts):
